@@ -58,6 +58,8 @@ type srvWorld struct {
 	secret    string
 	secretRef blob.Ref
 	sharePath string
+	asRemote  string // if set: the next requests come from this address (and Host)
+	asHost    string
 	shareRef  blob.Ref // a non-transitive share claim of the secret blob (if there is a share handler)
 	keyRef    blob.Ref
 }
@@ -343,7 +345,7 @@ func buildServer1(spec string, tmpOut *string) (*srvWorld, error) {
 		if _, err := getSigner(); err != nil {
 			return fail(err)
 		}
-		js, err := schema.NewShareRef(schema.ShareHaveRef, false).SetShareTarget(s.secretRef).SignAt(ctxbg, signer, timeBase)
+		js, err := schema.NewShareRef(schema.ShareHaveRef, false).SetShareTarget(s.secretRef).SignAt(ctxbg, signer, timeBase.Add(-time.Hour))
 		if err != nil {
 			return fail(err)
 		}
@@ -475,6 +477,9 @@ func (s *srvWorld) do(method, path string, creds string, body string) *httptest.
 	if isShape(creds) {
 		path = dress(creds, path, hdr, &remote, &host)
 	}
+	if s.asRemote != "" {
+		remote, host = s.asRemote, s.asHost
+	}
 	req, err := http.NewRequest(method, "http://localhost:3179"+path, rd)
 	if err != nil {
 		rec.Code = 599
@@ -597,13 +602,29 @@ func (w *world) closeSrv() {
 	w.srv = nil
 }
 
+// authenticateFrom sends a credentialed GET to path from the address the request shaped `cred`
+// will come from - the same ip:port, as on one keep-alive connection - and answers its status
+func (s *srvWorld) authenticateFrom(cred, path string) int {
+	remote, host := "203.0.113.7:4711", ""
+	if isShape(cred) {
+		dress(cred, "", http.Header{}, &remote, &host)
+	}
+	s.asRemote, s.asHost = remote, host
+	defer func() { s.asRemote, s.asHost = "", "" }()
+	return s.do("GET", path, "1", "").Code
+}
+
 func credWord(c string) bool { return c == "0" || c == "1" || isShape(c) }
 
 // guard <htype> <internal> <prefix> <spec>
 // access <htype> <internal> <creds> <prefix> <METHOD> <subpath-hex> <spec>
-// discovery <prefix> <creds> <spec>
-// fixed <path> <spec> [<creds>]
+// after-auth <htype> <internal> <creds> <prefix> <METHOD> <subpath-hex> <spec>
+// discovery <prefix> <creds> <spec> [after-auth]
+// fixed <path> <spec> [<creds> [after-auth]]
 // srvclose
+//
+// after-auth: first a GET with valid credentials to the same path from the same address, then the
+// request itself; the answer is that of the second request
 func (w *world) execSrv(ws []string) string {
 	if !w.keepSrv {
 		defer w.closeSrv()
@@ -627,7 +648,7 @@ func (w *world) execSrv(ws []string) string {
 			return "bad-op"
 		}
 		return s.guardOf(ws[3])
-	case "access":
+	case "access", "after-auth":
 		if len(ws) != 8 || (ws[2] != "0" && ws[2] != "1") || !credWord(ws[3]) || !isMethod(ws[5]) {
 			return "bad-op"
 		}
@@ -642,7 +663,15 @@ func (w *world) execSrv(ws []string) string {
 		if pi, ok := s.prefixes[ws[4]]; !ok || pi.htype != ws[1] || pi.internal != (ws[2] == "1") {
 			return "bad-op"
 		}
-		rec := s.do(ws[5], s.basePath(ws[4])+s.expand(string(sub)), ws[3], "")
+		if restartedProcess && unsafeRequest(ws[1], ws[5], string(sub)) {
+			return "restarted-process" // this request re-executed the process a moment ago
+		}
+		path := s.basePath(ws[4]) + s.expand(string(sub))
+		w.lastAuthCode = 0
+		if ws[0] == "after-auth" {
+			w.lastAuthCode = s.authenticateFrom(ws[3], path)
+		}
+		rec := s.do(ws[5], path, ws[3], "")
 		w.lastRec = rec
 		if s.guardOf(ws[4]) == "open" {
 			return "handler"
@@ -652,7 +681,7 @@ func (w *world) execSrv(ws []string) string {
 		}
 		return "pass"
 	case "discovery":
-		if len(ws) != 4 || !credWord(ws[2]) {
+		if (len(ws) != 4 && !(len(ws) == 5 && ws[4] == "after-auth")) || !credWord(ws[2]) {
 			return "bad-op"
 		}
 		s, e := w.srvFor(ws[3])
@@ -661,6 +690,9 @@ func (w *world) execSrv(ws []string) string {
 		}
 		if pi, ok := s.prefixes[ws[1]]; !ok || pi.htype != "root" || pi.internal {
 			return "bad-op"
+		}
+		if len(ws) == 5 {
+			w.lastAuthCode = s.authenticateFrom(ws[2], ws[1]+"?camli.mode=config")
 		}
 		rec := s.do("GET", ws[1]+"?camli.mode=config", ws[2], "")
 		w.lastRec = rec
@@ -672,12 +704,12 @@ func (w *world) execSrv(ws []string) string {
 		}
 		return fmt.Sprintf("status-%d", rec.Code)
 	case "fixed":
-		if len(ws) != 3 && len(ws) != 4 {
+		if len(ws) < 3 || len(ws) > 5 || (len(ws) == 5 && ws[4] != "after-auth") {
 			return "bad-op"
 		}
 		cred := "0"
-		if len(ws) == 4 {
-			if cred = ws[3]; !isShape(cred) {
+		if len(ws) >= 4 {
+			if cred = ws[3]; !isShape(cred) && cred != "0" {
 				return "bad-op"
 			}
 		}
@@ -690,6 +722,9 @@ func (w *world) execSrv(ws []string) string {
 		}
 		if _, isPrefix := s.prefixes[ws[1]]; isPrefix {
 			return "bad-op"
+		}
+		if len(ws) == 5 {
+			w.lastAuthCode = s.authenticateFrom(cred, ws[1])
 		}
 		rec := s.do("GET", ws[1], cred, "")
 		w.lastRec = rec
